@@ -40,7 +40,24 @@ for c in sorted(per):
     d = per[c]; out.append("| %s | %s | %s | %s |" % (c, ", ".join(d["in"]) or "—", ", ".join(d["ob"]) or "—", ", ".join(d["miss"]) or "—"))
 tot = {k2: sum(len(d[k2]) for d in per.values()) for k2 in ("in", "ob", "miss")}
 out += ["", "Totals over %d (change, check) pairs: %d with input, %d obligation-only, %d missed.  † = the change no longer breaks the property on the current tree because a later `fix:` made the code robust against it (recorded in its meta.json)." % (sum(tot.values()), tot["in"], tot["ob"], tot["miss"]), "",
-        "### 0.3 Hook commits in /repo (build tag `verif`; add-only)", ""]
+        "### 0.3 Size of the deliverable (from the last evidence files written on /repo; theorem counts supersede those in the §0 table above)", "",
+        "| property | theorems (obligations discharged) | quick cases | distinct non-trivial | Lean modules in the closure | wall s (quick) |", "|---|---|---|---|---|---|"]
+import glob
+tot_t = 0
+for f in sorted(glob.glob(os.path.join(ROOT, "evidence", "C*.json"))):
+    e = json.load(open(f)); c = e["coverage"]
+    tot_t += c.get("discharged", 0)
+    out.append("| %s | %s/%s | %s | %s | %s | %s |" % (e["property_id"], c.get("discharged"), c.get("obligations"), c.get("evaluations"), c.get("distinct_nontrivial"), len(c.get("lean_modules", [])), e.get("wall_s")))
+def loc(pattern):
+    n = 0
+    for f in glob.glob(os.path.join(ROOT, pattern), recursive=True):
+        try: n += sum(1 for _ in open(f, errors="ignore"))
+        except Exception: pass
+    return n
+out += ["", "Total kernel-checked property theorems: %d.  Lean: %d lines (Model %d, Spec %d, Lemmas %d, Props %d, Gen (regenerated) %d, Oracle %d); Go harness: %d lines (extractors %d); checks/lib/tools (Python): %d lines." % (
+    tot_t, loc("lean/**/*.lean"), loc("lean/KafkaVerif/Model/*.lean"), loc("lean/KafkaVerif/Spec/*.lean"), loc("lean/KafkaVerif/Lemmas/*.lean"), loc("lean/KafkaVerif/Props/*.lean"), loc("lean/KafkaVerif/Gen/*.lean"), loc("lean/Oracle/*.lean"),
+    loc("go/**/*.go"), loc("go/extract/**/*.go"), loc("checks/*.py") + loc("lib/*.py") + loc("tools/*.py"))]
+out += ["", "### 0.4 Hook commits in /repo (build tag `verif`; add-only)", ""]
 for c in hooks["source_commits"]:
     out.append("* `%s` %s" % (c, subj(c)))
 out += ["", "<!-- AUTO:END -->"]
